@@ -67,6 +67,8 @@ Lines ==
      [kind |-> "bad",     line |-> "nodecount",      opt |-> "", val |-> ""],      \* value missing
      [kind |-> "bad",     line |-> "lines",          opt |-> "", val |-> ""],      \* the bare name of a choice is answered "unknown config field"
      [kind |-> "bad",     line |-> "cum",            opt |-> "", val |-> ""],
+     [kind |-> "bad",     line |-> "cum=false",      opt |-> "", val |-> ""],      \* a choice can be taken, not un-taken: answered with an error
+     [kind |-> "bad",     line |-> "lines=no",       opt |-> "", val |-> ""],
      [kind |-> "bad",     line |-> "sample_index=nosuch", opt |-> "", val |-> ""],
      [kind |-> "bad",     line |-> "granularity=bogus", opt |-> "", val |-> ""],
      [kind |-> "bad",     line |-> "peek",           opt |-> "", val |-> ""],      \* argument missing
